@@ -160,8 +160,17 @@ func (a *Agent) Run(ctx context.Context) error {
 	// It should receive node instance when the node status changes, for
 	// example, when started, stopped, or cancelled, etc.
 	done := make(chan *scheduler.Node)
-	defer close(done)
+	var closeDone sync.Once
+	defer closeDone.Do(func() { close(done) })
+
+	// statusWriters tracks the goroutines that write intermediate statuses so
+	// that none of them can write after (or instead of) the final status.
+	var statusWriters sync.WaitGroup
+	scheduleEnded := make(chan struct{})
+
+	statusWriters.Add(1)
 	go func() {
+		defer statusWriters.Done()
 		for node := range done {
 			status := a.Status()
 			if err := a.historyStore.Write(status); err != nil {
@@ -175,8 +184,14 @@ func (a *Agent) Run(ctx context.Context) error {
 
 	// Write the first status just after the start to store the running status.
 	// If the DAG is already finished, skip it.
+	statusWriters.Add(1)
 	go func() {
-		time.Sleep(waitForRunning)
+		defer statusWriters.Done()
+		select {
+		case <-time.After(waitForRunning):
+		case <-scheduleEnded:
+			return
+		}
 		if a.finished.Load() {
 			return
 		}
@@ -188,6 +203,12 @@ func (a *Agent) Run(ctx context.Context) error {
 	// Start the DAG execution.
 	dagCtx := dag.NewContext(ctx, a.dag, a.dataStore.DAGStore(), a.requestID, a.logFile)
 	lastErr := a.scheduler.Schedule(dagCtx, a.graph, done)
+
+	// No node reports its status after Schedule has returned. Let the status
+	// writers drain before the final status is recorded and the store closed.
+	close(scheduleEnded)
+	closeDone.Do(func() { close(done) })
+	statusWriters.Wait()
 
 	// Update the finished status to the history database.
 	finishedStatus := a.Status()
